@@ -80,8 +80,8 @@ MaxOf(s) == FoldLeft(Max2, 0, s)
 \* SixelParser::parse_from: feed the payload, flush with '#', pad all rows to the longest
 Decode(payload) ==
   LET d == Char(Run(InitD, payload), 35) IN
-  IF d.err THEN [ok |-> FALSE, w |-> 0, h |-> 0]
-  ELSE [ok |-> TRUE, w |-> MaxOf(d.rows), h |-> Len(d.rows)]
+  IF d.err THEN [ok |-> FALSE, w |-> 0, h |-> 0, hset |-> FALSE]
+  ELSE [ok |-> TRUE, w |-> MaxOf(d.rows), h |-> Len(d.rows), hset |-> d.hset]      \* hset: a raster attribute declared the height
 \* the property on recorded values
 Rectangular(w, h, len) == len = w * h * 4
 =============================================================================
